@@ -98,3 +98,279 @@ func failTestName() string {
 	}
 	return testNames[choose("name", n)]
 }
+
+// ---- two-run history: fail -> file -> rerun (C06), unusable files (C17), flaky fail file (C09) ----
+
+// streamProp reads one raw word; fails / skips / passes on its two low bits, and records on
+// which kind of stream it ran.
+type streamProp struct {
+	words    []uint64
+	outcomes []int
+	random   []bool // invocation ran on a PRNG stream (false: buffer replay)
+}
+
+func (d *streamProp) prop(t *T) {
+	_, isRandom := t.s.(*randomBitStream)
+	w := t.s.drawBits(64)
+	d.random = append(d.random, isRandom)
+	d.words = append(d.words, w)
+	switch w & 3 {
+	case 0:
+		d.outcomes = append(d.outcomes, 2)
+		t.Fatalf("fail")
+	case 1:
+		d.outcomes = append(d.outcomes, 1)
+		t.Skip("skip")
+	default:
+		d.outcomes = append(d.outcomes, 0)
+	}
+}
+
+func countFiles(pattern string) []string {
+	names, _ := vfsGlob(pattern)
+	return names
+}
+
+// H_C06_rerun: a failing Check leaves exactly one fail file encoding the final test case, and
+// the next Check of the same test replays it first and fails "after 0 tests" with the same draws.
+func H_C06_rerun() {
+	vfsReset()
+	flags.checks = 1
+	flags.shrinkTime = 0
+	flags.nofailfile = choose("nofailfile", 2) == 1
+	flags.seed = 0
+	name := failTestName()
+
+	d1 := &streamProp{}
+	tb1 := newVTB(name)
+	runIsolated(func() { checkTB(tb1, farDeadline(), d1.prop) })
+	failed1 := len(tb1.errorfs) == 1 && strings.Contains(tb1.errorfs[0], "failed after")
+	files := countFiles(failFilePattern(name))
+	if !failed1 {
+		reach("run1-not-failed")
+		vassert(len(files) == 0, "C06: a fail file was written although Check did not report a falsification")
+		return
+	}
+	reach("run1-failed")
+	finalWord := d1.words[len(d1.words)-1] // the final replay
+	if flags.nofailfile {
+		reach("nofailfile")
+		vassert(len(vfs.files) == 0, "C06: -rapid.nofailfile was given but a file was written")
+		return
+	}
+	vassert(len(files) == 1, "C06: a failed Check must leave exactly one fail file matching the test's discovery pattern")
+	vassert(len(vfs.files) == 1, "C06: saving the fail file left other files behind")
+	if len(files) != 1 {
+		return
+	}
+	_, _, buf, err := loadFailFile(files[0])
+	vassert(err == nil && len(buf) == 1 && buf[0] == finalWord, "C06: the fail file does not encode the test case presented as the final counterexample")
+
+	// second run: no flag
+	flags.nofailfile = false
+	d2 := &streamProp{}
+	tb2 := newVTB(name)
+	runIsolated(func() { checkTB(tb2, farDeadline(), d2.prop) })
+	vassert(len(d2.words) >= 1 && !d2.random[0], "C06: the next Check did not replay the fail file before any random test case")
+	vassert(len(d2.words) >= 1 && d2.words[0] == finalWord, "C06: the replayed fail file gives different draws than the recorded failure")
+	vassert(len(tb2.errorfs) == 1 && strings.Contains(tb2.errorfs[0], "failed after 0 tests"), "C06: the next Check did not fail 'after 0 tests' on the persisted failure")
+	for i := range d2.random {
+		vassert(!d2.random[i], "C09: a fresh random test case was generated although the fail file already falsified the property")
+	}
+	vassert(len(countFiles(failFilePattern(name))) == 1, "C06: replaying a fail file wrote another fail file")
+}
+
+// unusable fail files
+func unusableFile(k int, word uint64) (content string, unreadable bool) {
+	switch k {
+	case 0:
+		return "", false // empty
+	case 1:
+		return "# only a comment\n#\n", false
+	case 2:
+		return "\x00\xff garbage \x01\n\n", false
+	case 3:
+		return rapidVersion + "#notanumber\n0x1", false
+	case 4:
+		return rapidVersion + "#1#2\n0x1", false
+	case 5:
+		return "v0.0.1#5\n0x0", false // other version, would fail if replayed
+	case 6:
+		return rapidVersion + "#7\n0x2", false // valid: now passes (word&3 == 2)
+	case 7:
+		return rapidVersion + "#7", false // valid version, no data: replay overruns (invalid)
+	case 8:
+		return rapidVersion + "#7\n0x1ffffffffffffffffffff", false // number too large
+	case 9:
+		return rapidVersion + "#", false // truncated
+	case 10:
+		return rapidVersion + "#7\n0x1\n0x", false // truncated word
+	case 11:
+		return rapidVersion + "#7\n0x1", false // valid: skipped when replayed (word&3 == 1)
+	case 12:
+		return "#7\n0x0", false // missing version
+	case 13:
+		return rapidVersion + "#-1\n0x0", false // negative seed
+	default:
+		return rapidVersion + "#7\n0x0", true // would fail, but cannot be opened
+	}
+}
+
+const nUnusable = 15
+
+// H_C17_ignored: unusable fail files are ignored and change neither schedule nor verdict.
+func H_C17_ignored() {
+	seed := nondetU64("seed")
+	flags.shrinkTime = 0
+	name := "TestFoo"
+	run := func(nfiles int) (*streamProp, *vTB, []any) {
+		vfsReset()
+		dir, _ := failFileName(name)
+		_ = vfsMkdirAll(dir, 0775)
+		for i := 0; i < nfiles; i++ {
+			content, unreadable := unusableFile(choose("file"+itoa(i), nUnusable), 0)
+			p := filepath.Join(dir, kindaSafeFilename(name)+"-2026-"+itoa(i)+".fail")
+			vfs.files[p] = content
+			if unreadable {
+				vfs.failOpen[p] = true
+			}
+		}
+		d := &streamProp{}
+		tb := newVTB(name)
+		valid, invalid, early, s, failfile, buf, err1, err2 := doCheck(tb, farDeadline(), 2, seed, "", true, d.prop)
+		return d, tb, []any{valid, invalid, early, s, failfile, len(buf), err1 != nil, err2 != nil, errorString(err1), errorString(err2)}
+	}
+	nfiles := 1
+	if thorough() {
+		nfiles = 1 + choose("nfiles", 2)
+	}
+	dA, tbA, resA := run(nfiles)
+	dB, _, resB := run(0)
+	vassert(len(tbA.errorfs) == 0 && len(tbA.fatalfs) == 0 && !tbA.failed && tbA.failNow == 0, "C17: an unusable fail file failed the test")
+	for i := range resA {
+		vassert(resA[i] == resB[i], "C17: an unusable fail file changed the verdict of the run")
+	}
+	// the random test cases are the same: strip the leading buffer replays
+	var ra []uint64
+	for i := range dA.words {
+		if dA.random[i] {
+			ra = append(ra, dA.words[i])
+		}
+	}
+	var rb []uint64
+	for i := range dB.words {
+		if dB.random[i] {
+			rb = append(rb, dB.words[i])
+		}
+	}
+	vassert(len(ra) == len(rb), "C17: an unusable fail file changed which random test cases were run")
+	for i := 0; i < len(ra) && i < len(rb); i++ {
+		vassert(ra[i] == rb[i], "C17: an unusable fail file changed which random test cases were run")
+	}
+	reach("compared")
+}
+
+// H_C17_loadTotal: loadFailFile returns an error or a result for every malformed shape; never panics.
+func H_C17_loadTotal() {
+	vfsReset()
+	k := choose("shape", nUnusable)
+	content, unreadable := unusableFile(k, 0)
+	vfs.files["f.fail"] = content
+	if unreadable {
+		vfs.failOpen["f.fail"] = true
+	}
+	version, _, buf, err := loadFailFile("f.fail")
+	if err != nil {
+		reach("error")
+		vassert(version == "" && buf == nil, "C17: loadFailFile returns data together with an error")
+	} else {
+		reach("loaded")
+	}
+	// checkFailFile never fails the test for these shapes (none of them falsifies the property)
+	d := &streamProp{}
+	tb := newVTB("T")
+	b2, e1, e2 := checkFailFile(tb, "f.fail", d.prop)
+	vassert(b2 == nil && e1 == nil && e2 == nil, "C17: an unusable fail file is not ignored by checkFailFile")
+	vassert(!tb.failed, "C17: an unusable fail file failed the test")
+}
+
+// H_C09_failfileFlaky: once a replayed fail file falsified the property, no fresh random test case runs.
+func H_C09_failfileFlaky() {
+	vfsReset()
+	name := "TestFoo"
+	dir, _ := failFileName(name)
+	_ = vfsMkdirAll(dir, 0775)
+	vfs.files[filepath.Join(dir, kindaSafeFilename(name)+"-2026-1.fail")] = rapidVersion + "#7\n0x5"
+	o := &outcomeProp{}
+	tb := newVTB(name)
+	flags.checks = 1
+	flags.shrinkTime = 0
+	flags.nofailfile = true
+	exited := runIsolated(func() { checkTB(tb, farDeadline(), o.prop) })
+	if o.fails > 0 {
+		reach("falsified")
+		vassert(len(tb.errorfs) == 1, "C02: a falsified test case did not fail the test")
+		vassert(exited && tb.failNow == 1, "C09: a failed Check must stop the enclosing test (FailNow)")
+	}
+	if nondetFirstFailed(o) {
+		reach("failfile-falsified")
+		vassert(o.calls <= 3, "C09: fresh test cases were generated after the fail file falsified the property")
+	}
+}
+
+func nondetFirstFailed(o *outcomeProp) bool { return o.calls >= 1 && o.firstOutcome == 2 }
+
+// H_C16_crash: killing the process at any file-system step of saveFailFile leaves only complete
+// fail files under discoverable names.
+func H_C16_crash() {
+	seed := nondetU64("seed")
+	buf := symSlice("buf", 2)
+	var lines []string
+	nlines := choose("nlines", 3)
+	for i := 0; i < nlines; i++ {
+		lines = append(lines, []string{"", "log line", "# x", "0x1"}[choose("line"+itoa(i), 4)])
+	}
+	output := []byte(strings.Join(lines, "\n"))
+	name := failTestName()
+	dirName, filename := failFileName(name)
+	preexisting := choose("dirExists", 2) == 1
+
+	setup := func() {
+		vfsReset()
+		if preexisting {
+			_ = vfsMkdirAll(dirName, 0775)
+			vfs.step = 0
+		}
+	}
+	// reference: the uninterrupted save
+	setup()
+	err := saveFailFile(filename, rapidVersion, output, seed, buf)
+	vassert(err == nil, "C16: saveFailFile failed on a healthy file system")
+	ref, ok := vfs.files[filename]
+	vassert(ok && len(vfs.files) == 1, "C16: an uninterrupted save must leave exactly the fail file")
+	K := vfs.step
+
+	// the same save, killed in front of step c (or in the middle of a write)
+	setup()
+	vfs.crashAt = choose("crashAt", K)
+	vfs.partial = choose("partial", 4)
+	crashed := runUntilCrash(func() { _ = saveFailFile(filename, rapidVersion, output, seed, buf) })
+	vassert(crashed, "C16: the crash point was not reached")
+	reach("crashed")
+	for _, p := range vfs.paths() {
+		content := vfs.files[p]
+		discoverable, _ := filepath.Match(failFilePattern(name), p)
+		if discoverable || p == filename {
+			reach("final-name-visible")
+			vassert(content == ref, "C16: a file a later run would pick up is incomplete or differs from the uninterrupted save")
+		} else {
+			reach("temp-visible")
+			vassert(strings.HasPrefix(filepath.Base(p), "."), "C16: partial data is visible under a name that is not a hidden temporary name")
+			vassert(filepath.Dir(p) == filepath.Dir(filename), "C16: the temporary file is not in the directory of the fail file (rename would not be atomic)")
+			for _, other := range testNames {
+				m, _ := filepath.Match(failFilePattern(other), p)
+				vassert(!m, "C16: a temporary file matches the fail file discovery pattern of some test")
+			}
+		}
+	}
+}
